@@ -50,7 +50,7 @@ func cmdStress(args []string) {
 	beforeS := make([]CharSpec, len(chars))
 	for ci := range chars {
 		chars[ci].norm()
-		sharedR[ci] = chars[ci].Recipe()
+		sharedR[ci] = spareCap(chars[ci].Recipe())
 		beforeS[ci] = CharSpecOf(sharedR[ci])
 		sc := Scenario{Kind: "char", Char: &chars[ci], Mode: "paths", Paths: 0, Tag: "stress"}
 		refCells[ci] = charCellEvents(ci, sc, 1, &sharedR[ci])[0].(*CellEv)
@@ -120,7 +120,7 @@ func cmdStress(args []string) {
 		rot := append(append([]rune{}, alpha[k:]...), alpha[:k]...)
 		spec := CharSpec{Len: 6, AllowChars: CPs(string(rot[:20]) + string(rune(0x3B1+k))), RequireSets: [][]int{CPs(string(rot[3:6]))}}
 		spec.norm()
-		shared := spec.Recipe()
+		shared := spareCap(spec.Recipe())
 		results := make([][]GenRes, *G)
 		start := make(chan struct{})
 		var wg sync.WaitGroup
@@ -235,6 +235,15 @@ func cmdStress(args []string) {
 	emc.Close()
 	emw.Close()
 	fmt.Printf("{\"cevents\":%d,\"wevents\":%d}\n", emc.N, emw.N)
+}
+
+// spareCap gives the caller-owned RequireSets slice spare capacity (as a slice built with append usually has): every copy
+// of the recipe value shares that backing array, so a library call that appends to the field writes into shared memory.
+func spareCap(r spg.CharRecipe) spg.CharRecipe {
+	rs := make([]string, len(r.RequireSets), len(r.RequireSets)+8)
+	copy(rs, r.RequireSets)
+	r.RequireSets = rs
+	return r
 }
 
 // syncReader is a goroutine-safe random source implemented in (race-instrumented) Go code: its own state is
